@@ -442,6 +442,9 @@ func genDeepGrammar(r *rng) toolInput {
 // whatever walks to "the leftmost reference" has to walk through those.
 func genLRRecovery(r *rng) toolInput { return genLRRecoveryN(r, -1) }
 
+// lrShapeCount is the number of shapes genLRRecoveryN knows.
+const lrShapeCount = 15
+
 // genLRRecoveryN takes shape i (every shape once when i counts up), or a drawn one.
 func genLRRecoveryN(r *rng, i int) toolInput {
 	shapes := []string{
@@ -469,6 +472,9 @@ func genLRRecoveryN(r *rng, i int) toolInput {
 		// of who uses whom)
 		"Line <- k:Key WS ( '=' / %{noeq} ) WS Value? !. //{noeq} WS\nKey <- [a-z]+\nValue <- [0-9]+\nWS <- [ \\t]*\n",
 		"A <- L 'x' ( 'y' / %{e} ) //{e} L\nL <- 'l'\nB <- A 'b'\n",
+	}
+	if len(shapes) != lrShapeCount {
+		panic("lrShapeCount is out of date")
 	}
 	if i < 0 || i >= len(shapes) {
 		i = r.intn(len(shapes))
